@@ -941,3 +941,17 @@ class SimList(list):
 
     def __len__(self):
         return list.__len__(self)
+
+
+def _install_unraisable_filter():
+    import sys
+    old = sys.unraisablehook
+
+    def hook(u):
+        if isinstance(u.exc_value, (SimAbort, Deadlock)) or u.exc_type in (SimAbort, Deadlock):
+            return
+        old(u)
+    sys.unraisablehook = hook
+
+
+_install_unraisable_filter()
